@@ -54,13 +54,21 @@ pub fn run(req: &J) -> J {
   let mut out = Map::new();
   let mut intrp = Interpreter::new(0);
   let mut last = json!({"r":"none"});
-  for st in stmts.iter() {
+  // "precompile": [k, ...] - Interpreter::compile() is also called (result discarded) after the first k statements: compiling is
+  // a function of the interpreter's state, so earlier compile calls must not influence what the final compile emits
+  let precompile: Vec<u64> = req.get("precompile").and_then(|s| s.as_array()).map(|a| a.iter().filter_map(|x| x.as_u64()).collect()).unwrap_or_default();
+  for (si, st) in stmts.iter().enumerate() {
     let text = st.as_str().unwrap_or("");
     match parse_cached(text) {
       Ok(tree) => {
         last = outcome_val(catch_unwind(AssertUnwindSafe(|| intrp.interpret(&tree))));
         if last["r"] != "ok" {
           break;
+        }
+        if precompile.contains(&((si + 1) as u64)) {
+          let pc = catch_unwind(AssertUnwindSafe(|| intrp.compile()));
+          let tag = match pc { Ok(Ok(_)) => "ok", Ok(Err(_)) => "err", Err(_) => "panic" };
+          out.insert(format!("precompile_{}", si + 1), json!(tag));
         }
       }
       Err(e) => {
